@@ -102,7 +102,11 @@ def build_jobs(prop, tier, seed, do, monitors, streams=None, want=None, monitor_
             "do": ["enum"], "max_points": 3000, "deadline_s": 100 if q else 600,
             "stream": "targeted:affine_eq_single_round_skip_self",
             "fixed_models": [{"doms": [[3, 4], [3, 4], [2, 4]], "idx": [0, 1, 2], "off": [0, 0, 0],
-                              "props": [[[0, 1, 2], "affine_eq", [-3, 1, 2, -3]]]}],
+                              "props": [[[0, 1, 2], "affine_eq", [-3, 1, 2, -3]]]},
+                             {"doms": [[1, 2], [-1, 3], [2, 6], [-3, -1]], "idx": [0, 1, 2, 3, 3],
+                              "off": [0, 0, 0, 0, -2],
+                              "props": [[[4, 2, 3, 0], "affine_eq", [2, 1, -2, -3, -7]],
+                                        [[3, 2], "affine_leq", [-3, 0, 3]], [[4], "alldifferent", []]]}],
         }
         if task_extra:
             task.update(task_extra)
